@@ -25,7 +25,8 @@ ASSUMPTIONS = [
     "leaf counts < 2^63 for the update routines; verification is modelled for all u64 (index, count) pairs",
     "arithmetic overflow is modelled as a panic (checked build); a release build would wrap (only for counts >= 2^63)",
     "a peak list of 2^32 or more digests makes `len().try_into::<u32>().unwrap()` panic: `verify never panics` carries length < 2^32",
-    "the update theorems for the node-index based routines are not proved yet (see props/C05.v: *_full definitions); they are covered by the correspondence and the oracle's specification checks only",
+    "proved in general: verify_iff / never panics, append returns the path, update_from_leaf_mutation, batch_update_from_leaf_mutation, batch_update_from_batch_leaf_mutation, batch_mutate_leaf_and_update_mps (exact paths and exact `modified`); still open in general (bounded vm_compute theorem up to 48 leafs + correspondence + oracle SPECDIFF only): update_from_append, batch_update_from_append, and therefore the history invariant for histories containing appends with tracked proofs",
+    "`valid proof` means: the authentication path of the specification (path ls i); C05_path_verifies shows it verifies; uniqueness of verifying paths would need collision resistance of H and is not claimed",
 ]
 RULE = ("operation histories of 1..300 (quick) / ..3000 (thorough) ops mixing append/mutate/batch-mutate through every update "
         "routine, tracked subsets in random hand-over order, counts steered through 2^k-1 -> 2^k, mutated leafs that are "
@@ -73,7 +74,7 @@ def vfy_cases(rng, big):
 def cases(tier, rng):
     big = tier == "thorough"
     out = vfy_cases(rng, big)
-    nh = 500 if big else 80
+    nh = 500 if big else 140
     for k in range(nh):
         nops = rng.choice((1, 2, 3, 5, 8, 13, 24, 25, 40, 80, 150, 300))
         out.append(("history-random", mc.random_history(rng, nops, steer=False)))
